@@ -151,7 +151,10 @@ class Ctx:
         if nontrivial:
             self.counters["nontrivial"] += 1
             self.nt.add(case_hash(case if key is None else key))
-        if len(self.samples) < 3 and (nontrivial or self.evaluations > 50):
+        # samples: non-trivial cases taken at increasing depths of the run
+        # (the first cases Hypothesis generates are the simplest ones)
+        want = (3, 30, 300)[min(len(self.samples), 2)]
+        if len(self.samples) < 3 and nontrivial and self.evaluations >= want:
             self.samples.append(short(case))
 
     def count(self, label, n=1):
@@ -574,7 +577,7 @@ def _run(mod, args, seed, known, known_open, scratch_root):
         ps["_extra"] = ps.get("_extra", 0) + r["nt_extra"]
         ps["wall_s"] = round(max(ps["wall_s"], r["wall"]), 2)
         if r["shard"] == 0:
-            for s_ in r["samples"][:2]:
+            for s_ in r["samples"][-2:]:
                 samples.append({"sub": r["sub"], "case": s_})
         notes.extend(r["notes"])
         violations.extend(r["violations"])
